@@ -60,7 +60,22 @@ func f10Heads(es []core.Edge) []core.At {
 func isSelect(in ssa.Instruction) bool { _, ok := in.(*ssa.Select); return ok }
 
 func chanField(v ssa.Value) string {
-	n := core.FieldAddrNameOfLoad(core.Forward(v))
+	v = core.Forward(v)
+	// a conversion between channel types (`chan T` → `chan<- T` when the channel is handed to a
+	// helper's directional parameter) denotes the same channel
+	for i := 0; i < 4; i++ {
+		ct, ok := v.(*ssa.ChangeType)
+		if !ok {
+			break
+		}
+		_, from := ct.X.Type().Underlying().(*types.Chan)
+		_, to := ct.Type().Underlying().(*types.Chan)
+		if !from || !to {
+			break
+		}
+		v = core.Forward(ct.X)
+	}
+	n := core.FieldAddrNameOfLoad(v)
 	if strings.HasPrefix(n, "TimingWheel.") {
 		return strings.TrimPrefix(n, "TimingWheel.")
 	}
@@ -900,11 +915,17 @@ func c10(r *core.Run) {
 		if !need(o) || !o.Need(t.handler["tick"] != nil && t.scan != nil, "tick handler and slot scan") {
 			return
 		}
-		// the function that advances the position: the caller of the slot scan (the tick handler, or the owner loop itself)
+		// the function that advances the position: the caller of the slot scan (the tick handler, or the
+		// owner loop itself), or the scan function itself when it is not a separate function
 		f := t.handler["tick"]
-		for _, e := range t.g.in[t.scan] {
-			if _, plain := e.site.(*ssa.Call); plain && e.from != t.scan {
-				f = e.from
+		merged := len(core.StoresToField(t.scan, "TimingWheel.tickedPos")) > 0
+		if merged {
+			f = t.scan
+		} else {
+			for _, e := range t.g.in[t.scan] {
+				if _, plain := e.site.(*ssa.Call); plain && e.from != t.scan {
+					f = e.from
+				}
 			}
 		}
 		r.Fn(core.FuncName(f), core.FuncName(t.scan))
@@ -918,38 +939,60 @@ func c10(r *core.Run) {
 		if got, want := a.Norm(sts[0].Val), core.ParsePoly("mod(tp + 1, N)"); !got.Equal(want) {
 			o.Fail(p.InstrPos(sts[0]), "tickedPos := %s, expected %s", got, want)
 		}
-		scans := core.Calls(f, func(in ssa.Instruction) bool {
-			c, ok := in.(*ssa.Call)
-			return ok && c.Call.StaticCallee() == t.scan
-		})
-		o.Site(len(scans))
-		if len(scans) == 0 {
-			o.Fail(p.Pos(f.Pos()), "the tick handler does not scan a slot")
+		// lst is slots[i] with i the advanced position (the value stored, or tickedPos read after the store)
+		advancedSlot := func(lst ssa.Value) bool {
+			ld, isLd := core.Forward(lst).(*ssa.UnOp)
+			if !isLd || ld.Op != token.MUL {
+				return false
+			}
+			ia, isIA := ld.X.(*ssa.IndexAddr)
+			if !isIA || !core.IsFieldLoad(ia.X, "TimingWheel.slots") {
+				return false
+			}
+			idx := core.Forward(ia.Index)
+			if idx == sts[0].Val {
+				return true
+			}
+			il, isL := idx.(*ssa.UnOp)
+			return isL && core.IsFieldLoad(il, "TimingWheel.tickedPos") && core.Dominates(sts[0], il)
 		}
-		for _, c := range scans {
-			if !core.Dominates(sts[0], c) {
-				o.Fail(p.InstrPos(c), "the slot is scanned before tickedPos advanced")
+		if merged {
+			// the walk happens in f itself: the list(s) whose elements are the entries visited
+			walks, ok := c10WalkedLists(f)
+			o.Site(len(walks))
+			if !ok || len(walks) == 0 {
+				o.Fail(p.Pos(f.Pos()), "the tick handler does not scan a slot (the list whose elements it visits cannot be determined)")
 			}
-			var lst ssa.Value
-			for _, arg := range core.Args(c)[1:] {
-				if strings.HasSuffix(arg.Type().String(), "list.List") {
-					lst = arg
+			for _, wk := range walks {
+				if !core.Dominates(sts[0], wk.at) {
+					o.Fail(p.InstrPos(wk.at), "the slot is scanned before tickedPos advanced")
+				}
+				if !advancedSlot(wk.list) {
+					o.Fail(p.InstrPos(wk.at), "the list scanned is not slots[tickedPos] of the advanced position")
 				}
 			}
-			ok := false
-			if ld, isLd := lst.(*ssa.UnOp); isLd && ld.Op == token.MUL {
-				if ia, isIA := ld.X.(*ssa.IndexAddr); isIA && core.IsFieldLoad(ia.X, "TimingWheel.slots") {
-					idx := core.Forward(ia.Index)
-					if idx == sts[0].Val {
-						ok = true
-					}
-					if il, isL := idx.(*ssa.UnOp); isL && core.IsFieldLoad(il, "TimingWheel.tickedPos") && core.Dominates(sts[0], il) {
-						ok = true
+		} else {
+			scans := core.Calls(f, func(in ssa.Instruction) bool {
+				c, ok := in.(*ssa.Call)
+				return ok && c.Call.StaticCallee() == t.scan
+			})
+			o.Site(len(scans))
+			if len(scans) == 0 {
+				o.Fail(p.Pos(f.Pos()), "the tick handler does not scan a slot")
+			}
+			for _, c := range scans {
+				if !core.Dominates(sts[0], c) {
+					o.Fail(p.InstrPos(c), "the slot is scanned before tickedPos advanced")
+				}
+				var lst ssa.Value
+				for _, arg := range core.Args(c)[1:] {
+					if strings.HasSuffix(arg.Type().String(), "list.List") {
+						lst = arg
 					}
 				}
-			}
-			if !ok {
-				o.Fail(p.InstrPos(c), "the list scanned is not slots[tickedPos] of the advanced position")
+				if lst == nil || !advancedSlot(lst) {
+					o.Fail(p.InstrPos(c), "the list scanned is not slots[tickedPos] of the advanced position")
+				}
 			}
 		}
 		// scan arithmetic
